@@ -200,6 +200,74 @@ def recompile_over_existing(ctx, binary, projects, limit):
     return n
 
 
+OTHER_DIR_CLASS = "execute-from-another-directory"
+
+
+def execute_from_another_directory(ctx, binary):
+    """(hunt2 D8) the bytecode files `compile` wrote are executed while the process stands in ANOTHER directory (the parent
+    with a relative path, an unrelated directory with an absolute path, a sub-directory with `../`).  `run` on the same sources
+    behaves the same from every directory; the property compares `run` with executing the files `compile` wrote and says
+    nothing of where the user stands.  Programs: the ones whose bytecode refers to its own file or to other files."""
+    base = ctx.mktemp()
+    progs = [p for p in failing_and_colliding_programs() if p["name"].startswith(("self:method-constructs-its-own-class-b", "collide:same-function", "fail:assert:function"))]
+    progs += [p for p in path_spelling_matrix() if p["name"].startswith("modules:") and tuple(p["spell"]) == (0, 1)]
+    progs.append({"name": "single:no-functions", "entry": "main.ms", "files": {"main.ms": "k = 20\nprint k + 1\nprint \"done\"\n"}})
+
+    def one(proj):
+        top = programs.materialize({"files": {}}, base)          # an empty directory of our own: <top>/proj holds the project
+        d = os.path.join(top, "proj")
+        os.makedirs(os.path.join(d, "inner"))
+        for f, text in proj["files"].items():
+            with open(os.path.join(d, f), "w", encoding="utf8") as fh:
+                fh.write(text)
+        other = os.path.join(top, "elsewhere")
+        os.makedirs(other)
+        e = proj["entry"]
+        mmm = e[:-3] + ".mmm"
+        runs = {"run, in the project directory": programs.run_bin(binary, ["run", e, "-q"], d),
+                "run proj/%s, from the parent directory" % e: programs.run_bin(binary, ["run", os.path.join("proj", e), "-q"], top)}
+        for f in [f for f in os.listdir(d) if f.endswith(".mmm")]:
+            os.remove(os.path.join(d, f))
+        for f in [f for f in os.listdir(top) if f.endswith(".mmm")]:
+            os.remove(os.path.join(top, f))
+        c = programs.run_bin(binary, ["compile", e, "--quick"], d)
+        ex = {}
+        if c[0] == 0:
+            ex["execute %s, in the project directory" % mmm] = programs.run_bin(binary, ["execute", mmm], d)
+            ex["execute proj/%s, from the parent directory" % mmm] = programs.run_bin(binary, ["execute", os.path.join("proj", mmm)], top)
+            ex["execute <absolute path>/%s, from an unrelated directory" % mmm] = programs.run_bin(binary, ["execute", os.path.join(d, mmm)], other)
+            ex["execute ../%s, from a sub-directory" % mmm] = programs.run_bin(binary, ["execute", os.path.join("..", mmm)], os.path.join(d, "inner"))
+        unloc = lambda r: (r[0], r[1].replace(d + os.sep, "").replace("proj" + os.sep, ""), r[2].replace(d + os.sep, "").replace("proj" + os.sep, ""))
+        runs = {k: unloc(v) for k, v in runs.items()}
+        ex = {k: unloc(v) for k, v in ex.items()}
+        shutil.rmtree(top, ignore_errors=True)
+        return proj, runs, c, ex
+
+    n = 0
+    for proj, runs, c, ex in programs.pmap(one, progs):
+        r1 = runs["run, in the project directory"]
+        if c[0] != 0 or 124 in [r[0] for r in list(runs.values()) + list(ex.values())]:
+            continue
+        same = lambda r: programs.exit_class(r[0]) == programs.exit_class(r1[0]) and programs.same_output(r1[1], r[1], proj)
+        if not all(same(r) for r in runs.values()):
+            continue                      # `run` itself depends on the directory: nothing to compare `execute` with
+        home = [k for k in ex if k.endswith("in the project directory")][0]
+        if not same(ex[home]):
+            continue                      # differs even at home: system_level reports that
+        n += 1
+        bad = [k for k, r in ex.items() if not same(r)]
+        if bad:
+            k = bad[0]
+            ctx.report(OTHER_DIR_CLASS,
+                       "%s: the bytecode files written by `compile` behave like `run` only while the process stands in the directory `compile` was started in: "
+                       "%s -> exit %s %s (run: exit %s from every directory); also differs: %s" % (
+                           proj["name"], k, ex[k][0], [l.strip() for l in ex[k][2].splitlines() if "failed" in l or "No such file" in l][:1], r1[0], bad[1:]),
+                       {"project": proj, "how": "mkdir proj proj/inner elsewhere; write the files into proj; (cd proj && mscript compile %s --quick); then each command of `execute` below" % proj["entry"],
+                        "run": {k: {"rc": r[0], "stdout": r[1][-600:]} for k, r in runs.items()},
+                        "execute": {k: {"rc": r[0], "stdout": r[1][-600:], "stderr": r[2][-500:]} for k, r in ex.items()}})
+    return n
+
+
 def run(ctx):
     ok = core.coq_props(ctx, "Props/C04.v")
     binary = core.build_repo()
@@ -256,6 +324,7 @@ def run(ctx):
     projects = failing_and_colliding_programs() + projects
     n_run, n_both, n_dump = system_level(ctx, binary, matrix + projects, len(matrix) + (120 if ctx.quick() else len(projects)))
     ctx.cov["programs_recompiled_over_existing_file"] = recompile_over_existing(ctx, binary, projects, 25 if ctx.quick() else 150)
+    ctx.cov["programs_executed_from_other_directories"] = execute_from_another_directory(ctx, binary)
     ctx.cov["programs_run_both_ways"] = n_both
     ctx.cov["programs_tried"] = n_run
     ctx.cov["traces_validated_against_impl"] = n_dump
